@@ -150,6 +150,16 @@ def guard_lins(m, T, target, removed=()):
     lins, unk = [], []
     for dt, labels, bi in gs:
         dt = norm(dt)
+        if dt[0] == 'discr' and term_callee_is(dt[1], 'core::num::checked_sub') and len(dt[1][2]) == 2:
+            # `a.checked_sub(b)`: Some exactly when a >= b (std), i.e. a guard written as a subtraction that may fail
+            a_, b_ = dt[1][2]
+            for lab in labels:
+                if lab[0] == 'variant' and lab[1] in ('Some', 'None'):
+                    try:
+                        lins.append((L.guard_ge0(m.desat(('bin', 'Ge', a_, b_)), lab[1] == 'Some', m.atom), bi))
+                    except L.Unknown as e:
+                        unk.append('%s: %s' % (T.body.where(bi), e))
+            continue
         if dt[0] == 'discr':
             continue            # enum matches (Ok/Err edges) are not numeric guards
         truth = None
